@@ -247,6 +247,9 @@ impl Check for C03 {
 				if let Err(p) = catch(|| super::c10::mid_iteration(ctx)) {
 					ctx.fail(format!("panic: {} :: streaming end race", p), "");
 				}
+				if let Err(p) = catch(|| twin_commands(ctx)) {
+					ctx.fail(format!("panic: {} :: static / streaming twins", p), "");
+				}
 			}
 			manager_pass(idx - NCFG, ctx);
 			return;
@@ -632,6 +635,8 @@ fn run_history(cfg: &Cfg, letters: &[u8], canonical: bool, ctx: &mut Ctx) {
 				if hyps.iter().any(|(h, r)| h >= r) {
 					pm.mark_stopped();
 					model_state_name = "Stopped";
+					// the natural end overtakes a fade that was still running: the fade timing law no longer applies
+					fade_cmd = None;
 				}
 			} else if hyps.iter().all(|(h, r)| *h >= r + slack) {
 				ctx.fail(
@@ -779,6 +784,99 @@ fn run_history(cfg: &Cfg, letters: &[u8], canonical: bool, ctx: &mut Ctx) {
 			if !crate::probes::reap_decoder(id, &st) {
 				ctx.count("decoder_threads_not_exited_after_stop", 1);
 			}
+		}
+	}
+}
+
+/// the same life-cycle commands, with tweens that carry their own start time, given to a static and to a streaming sound
+/// playing the same constant: both handles report the same state after every callback and both are equally loud
+fn twin_commands(ctx: &mut Ctx) {
+	use kira::track::MainTrackBuilder;
+	let sr = 8u32;
+	let delayed = |frames: u64, dur_frames: u64| Tween { start_time: StartTime::Delayed(Duration::from_secs_f64(frames as f64 / sr as f64)), duration: Duration::from_secs_f64(dur_frames as f64 / sr as f64), easing: kira::Easing::Linear };
+	let now = |dur_frames: u64| Tween { start_time: StartTime::Immediate, duration: Duration::from_secs_f64(dur_frames as f64 / sr as f64), easing: kira::Easing::Linear };
+	// scripts: (callback index, command)
+	let scripts: Vec<(&str, Vec<(usize, u8)>)> = vec![
+		("pause(instant); resume(tween starting 3 frames later, 2 frames long)", vec![(1, 0), (3, 1)]),
+		("pause(tween starting 2 frames later, instant)", vec![(1, 2)]),
+		("pause(2 frames); resume(tween starting 2 frames later, instant)", vec![(1, 3), (5, 4)]),
+		("stop(tween starting 3 frames later, 2 frames long)", vec![(2, 5)]),
+		("pause(instant); resume_at(Delayed 2 frames, tween starting 2 frames later, 2 frames long)", vec![(1, 0), (2, 6)]),
+	];
+	for (name, script) in &scripts {
+		for chunk in [1usize, 2] {
+			ctx.evals += 1;
+			pacer::set_mode(pacer::Mode::Pacer);
+			let mut m = rig::manager(sr, chunk, rig::caps(2), MainTrackBuilder::new());
+			let mut hs = m.play(rig::static_data(sr, rig::dc_frames(4, 0.25)).loop_region(Region::from(..)).panning(-1.0)).expect("static");
+			let first = pacer::count();
+			let (dec, stats) = ScriptedDecoder::new(rig::dc_frames(4, 0.25), sr, vec![2, 1, 3], 1);
+			let mut ht = m.play(StreamingSoundData::from_decoder(dec).loop_region(Region::from(..)).panning(1.0)).map_err(|_| ()).expect("streaming");
+			let mut bad = None;
+			let mut trace = vec![];
+			for cb in 0..14 {
+				for (at, c) in script {
+					if *at == cb {
+						match c {
+							0 => {
+								hs.pause(now(0));
+								ht.pause(now(0));
+							}
+							1 => {
+								hs.resume(delayed(3, 2));
+								ht.resume(delayed(3, 2));
+							}
+							2 => {
+								hs.pause(delayed(2, 0));
+								ht.pause(delayed(2, 0));
+							}
+							3 => {
+								hs.pause(now(2));
+								ht.pause(now(2));
+							}
+							4 => {
+								hs.resume(delayed(2, 0));
+								ht.resume(delayed(2, 0));
+							}
+							5 => {
+								hs.stop(delayed(3, 2));
+								ht.stop(delayed(3, 2));
+							}
+							_ => {
+								hs.resume_at(StartTime::Delayed(Duration::from_secs_f64(2.0 / sr as f64)), delayed(2, 2));
+								ht.resume_at(StartTime::Delayed(Duration::from_secs_f64(2.0 / sr as f64)), delayed(2, 2));
+							}
+						}
+					}
+				}
+				pacer::step(first, chunk as u64 + 6);
+				let mut out = vec![];
+				rig::render_stereo(&mut m, chunk, &mut out);
+				ctx.transitions += 1;
+				// static hard left, streaming hard right: the two channels carry the two sounds
+				let (l, r) = out[out.len() - 1];
+				trace.push((format!("{:?}", hs.state()), format!("{:?}", ht.state()), l, r));
+				if hs.state() != ht.state() && bad.is_none() {
+					bad = Some(format!("after callback {}: static {:?}, streaming {:?}", cb, hs.state(), ht.state()));
+				}
+				if (l - r).abs() > 1e-6 && bad.is_none() {
+					bad = Some(format!("after callback {}: static level {}, streaming level {}", cb, l, r));
+				}
+			}
+			if let Some(b) = bad {
+				ctx.fail(
+					"a static and a streaming sound given the same life-cycle commands report different states / fade differently :: twins".to_string(),
+					format!("{}; internal buffer = callback = {} frame(s) at {} Hz; {}; (static state, streaming state, left = static, right = streaming) per callback {:?}", name, chunk, sr, b, trace),
+				);
+			} else {
+				ctx.nontrivial_extra += 1;
+			}
+			ctx.state(hash64(&("twins", name, chunk)));
+			ht.stop(now(0));
+			let mut out = vec![];
+			rig::render_stereo(&mut m, 1, &mut out);
+			drop(m);
+			crate::probes::reap_decoder(first, &stats);
 		}
 	}
 }
